@@ -4,6 +4,7 @@ check run) are what the hand-written model `Model/C20.lean` assumes. If the sour
 these, this file stops compiling and the check reports a broken obligation.
 -/
 import Pandora.Gen.GrpcGun
+import Pandora.Model.C20Expand
 import Pandora.Model.C20
 import Pandora.Model.C20Net
 import Pandora.Model.C20Feed
@@ -16,7 +17,9 @@ open Pandora.Model.C20
 /-- the plain gun's timeout selection is the model's `effTimeoutMs` (configured value, 15 s when 0) -/
 theorem gunTimeout_eq (ms : Nat) :
     Gen.GrpcGun.gunTimeoutNs ((ms : Int) * 1000000) = ((effTimeoutMs ms : Nat) : Int) * 1000000 := by
-  unfold Gen.GrpcGun.gunTimeoutNs Gen.GrpcGun.gunDefaultTimeoutNs effTimeoutMs
+  -- the same script proves both forms the translator emits (the `if … != 0` shape; round 6: the symbolically executed one)
+  unfold Gen.GrpcGun.gunTimeoutNs effTimeoutMs
+  try unfold Gen.GrpcGun.gunDefaultTimeoutNs
   by_cases h : ms = 0
   · subst h; simp
   · have : ((ms : Int) * 1000000) ≠ 0 := by omega
@@ -25,7 +28,9 @@ theorem gunTimeout_eq (ms : Nat) :
 /-- so is the scenario gun's -/
 theorem scenarioTimeout_eq (ms : Nat) :
     Gen.GrpcGun.scenarioTimeoutNs ((ms : Int) * 1000000) = ((effTimeoutMs ms : Nat) : Int) * 1000000 := by
-  unfold Gen.GrpcGun.scenarioTimeoutNs Gen.GrpcGun.scenarioDefaultTimeoutNs effTimeoutMs
+  -- the same script proves both forms the translator emits (the `if … != 0` shape; round 6: the symbolically executed one)
+  unfold Gen.GrpcGun.scenarioTimeoutNs effTimeoutMs
+  try unfold Gen.GrpcGun.scenarioDefaultTimeoutNs
   by_cases h : ms = 0
   · subst h; simp
   · have : ((ms : Int) * 1000000) ≠ 0 := by omega
@@ -491,5 +496,49 @@ theorem dialTimeout_eq (conf : Int) :
     Gen.GrpcGun.dialTimeoutNs conf = (if conf ≠ 0 then conf else 1000000000) := by
   unfold Gen.GrpcGun.dialTimeoutNs
   by_cases h : conf = 0 <;> simp [h]
+
+
+/-! ### round 6: the scenario's request list, the step literal, the sample tag, the pooled object, the ammo provider -/
+
+theorem scenarioExpandLoop_eq : Gen.GrpcGun.scenarioExpandLoop =
+    ["for $int0, $string0 := range $0.Requests", "$string1, $int1, $int2, $error0 := config.ParseShootName($string0)",
+     "if $error0 != nil { return nil, fmt.Errorf(\"…\", $string0, $error0) }",
+     "if $string1 == \"sleep\" { if len($*scenario.Scenario0.Calls) == 0 { return nil, fmt.Errorf(\"…\", $string0) } $*scenario.Scenario0.Calls[len($*scenario.Scenario0.Calls)-1].Sleep += time.Millisecond * time.Duration($int1) continue }",
+     "$config.CallConfig0, $bool0 := $1[$string1]", "if !$bool0 { return nil, fmt.Errorf(\"…\", $string1) }",
+     "$scenario.Call0 := convertConfigToStep($config.CallConfig0, $*mp.NextIterator0)",
+     "if $int2 > 0 { $scenario.Call0.Sleep += time.Millisecond * time.Duration($int2) }",
+     "if $int1 > config.MaxScenarioRequests-len($*scenario.Scenario0.Calls) { return nil, fmt.Errorf(\"…\", $string0, config.MaxScenarioRequests) }",
+     "for $int3 := 0; $int3 < $int1; $int3++ { $*scenario.Scenario0.Calls = append($*scenario.Scenario0.Calls, $scenario.Call0) }"] := rfl
+
+theorem scenarioExpandAround_eq : Gen.GrpcGun.scenarioExpandAround =
+    ["$*mp.NextIterator0 := mp.NewNextIterator(time.Now().UnixNano())",
+     "$*scenario.Scenario0 := &gun.Scenario{Name: $0.Name, MinWaitingTime: time.Millisecond * time.Duration($0.MinWaitingTime)}",
+     "return $*scenario.Scenario0, nil"] := rfl
+
+theorem scenarioStepPrologue_eq : Gen.GrpcGun.scenarioStepPrologue =
+    ["$[]scenario.Postprocessor0 := make([]gun.Postprocessor, len($0.Postprocessors))", "copy($[]scenario.Postprocessor0, $0.Postprocessors)",
+     "$[]scenario.Preprocessor0 := make([]gun.Preprocessor, len($0.Preprocessors))",
+     "for $int0 := range $0.Preprocessors { $[]scenario.Preprocessor0[$int0] = $0.Preprocessors[$int0] if $grpc.IteratorIniter0, $bool0 := $[]scenario.Preprocessor0[$int0].(IteratorIniter); $bool0 { $grpc.IteratorIniter0.InitIterator($1) } }"] := rfl
+
+/-- name, tag, call, metadata and payload of a step are the definition's fields of the same name (`Model.CallDef`) -/
+theorem scenarioStepFields_eq : Gen.GrpcGun.scenarioStepFields =
+    ["Call=$0.Call", "Metadata=$0.Metadata", "Name=$0.Name", "Payload=[]byte($0.Payload)", "Postprocessors=$[]scenario.Postprocessor0",
+     "Preprocessors=$[]scenario.Preprocessor0", "Tag=$0.Tag"] := rfl
+
+theorem maxScenarioRequests_eq : Gen.GrpcGun.maxScenarioRequests = Pandora.Model.C20.maxScenarioRequests := rfl
+
+/-- the sample of a step is tagged `<scenario>.<tag of the call>` (`Model.shootStep`: `scn ++ "." ++ cd.tag`) -/
+theorem scenarioSampleTag_eq : Gen.GrpcGun.scenarioSampleTag = "$0.Name + \".\" + $step.Tag" := rfl
+
+theorem ammoInvalidateBody_eq : Gen.GrpcGun.ammoInvalidateBody = ["$recv.isInvalid = true"] := rfl
+theorem ammoIsInvalidBody_eq : Gen.GrpcGun.ammoIsInvalidBody = ["return $recv.isInvalid"] := rfl
+theorem ammoProviderAcquire_eq : Gen.GrpcGun.ammoProviderAcquire =
+    ["$*ammo.Ammo0, $bool0 := <-$recv.Sink", "if $bool0 { $*ammo.Ammo0.SetID($recv.idCounter.Add(1)) }", "return $*ammo.Ammo0, $bool0"] := rfl
+/-- `Release` puts the object back AS IT IS: the pool's objects hold earlier entries (`Model.C20Pool`: the oracle) -/
+theorem ammoProviderRelease_eq : Gen.GrpcGun.ammoProviderRelease = ["$recv.Pool.Put($0)"] := rfl
+/-- the sink is closed by a `defer` placed before anything that can fail -/
+theorem ammoProviderRun_eq : Gen.GrpcGun.ammoProviderRun =
+    ["defer $recv.Close()", "$recv.ProviderDeps = $1", "defer close($recv.Sink)", "$afero.File0, $error0 := $recv.fs.Open($recv.fileName)",
+     "if $error0 != nil { return errors.Wrap($error0, \"…\") }", "defer $afero.File0.Close()", "return $recv.start($0, $afero.File0)"] := rfl
 
 end Pandora.Bridge.C20
